@@ -91,6 +91,14 @@ func tokenConsts(f *ast.File) ([]string, map[string]string) {
 }
 
 func findVar(f *ast.File, name string) ast.Expr {
+	if e := lookupVar(f, name); e != nil {
+		return e
+	}
+	fail("var " + name)
+	return nil
+}
+
+func lookupVar(f *ast.File, name string) ast.Expr {
 	for _, d := range f.Decls {
 		gd, ok := d.(*ast.GenDecl)
 		if !ok || gd.Tok != token.VAR {
@@ -105,7 +113,6 @@ func findVar(f *ast.File, name string) ast.Expr {
 			}
 		}
 	}
-	fail("var " + name)
 	return nil
 }
 
@@ -188,6 +195,29 @@ type site struct {
 	File string `json:"file"`
 	Line int    `json:"line"`
 	What string `json:"what"`
+}
+
+// mapPairs: the key/value expressions of a package-level map literal that the function reads
+// (the table form of what may also be written as a switch), in source order.
+func mapPairs(f *ast.File, fn *ast.FuncDecl) [][2]ast.Expr {
+	var out [][2]ast.Expr
+	ast.Inspect(fn, func(x ast.Node) bool {
+		id, ok := x.(*ast.Ident)
+		if !ok || out != nil {
+			return true
+		}
+		if cl, ok := lookupVar(f, id.Name).(*ast.CompositeLit); ok {
+			if _, isMap := cl.Type.(*ast.MapType); isMap {
+				for _, e := range cl.Elts {
+					if kv, ok := e.(*ast.KeyValueExpr); ok {
+						out = append(out, [2]ast.Expr{kv.Key, kv.Value})
+					}
+				}
+			}
+		}
+		return true
+	})
+	return out
 }
 
 func main() {
@@ -297,11 +327,22 @@ func main() {
 		}
 		return true
 	})
-	if sw == nil {
-		fail("getNegatedBooleanOperator switch")
+	negPairs := mapPairs(parF, neg)
+	if sw == nil && negPairs == nil {
+		fail("getNegatedBooleanOperator switch / map")
 	}
 	sb.WriteString("def negatedOperator : List (TT × TT) := [")
 	first := true
+	if sw == nil {
+		for _, kv := range negPairs {
+			if !first {
+				sb.WriteString(", ")
+			}
+			first = false
+			fmt.Fprintf(&sb, "(.%s, .%s)", selName(kv[0]), selName(kv[1]))
+		}
+		sw = &ast.SwitchStmt{Body: &ast.BlockStmt{}}
+	}
 	for _, c := range sw.Body.List {
 		cc := c.(*ast.CaseClause)
 		if cc.List == nil {
@@ -330,11 +371,22 @@ func main() {
 		}
 		return true
 	})
-	if sw == nil {
-		fail("renderVarComparison switch")
+	opPairs := mapPairs(brF, rvc)
+	if sw == nil && opPairs == nil {
+		fail("renderVarComparison switch / map")
 	}
 	sb.WriteString("def varCompareOpcode : List (TT × String) := [")
 	first = true
+	if sw == nil {
+		for _, kv := range opPairs {
+			if !first {
+				sb.WriteString(", ")
+			}
+			first = false
+			fmt.Fprintf(&sb, "(.%s, %s)", selName(kv[0]), leanStr(unq(kv[1])))
+		}
+		sw = &ast.SwitchStmt{Body: &ast.BlockStmt{}}
+	}
 	for _, c := range sw.Body.List {
 		cc := c.(*ast.CaseClause)
 		lits := stringLits(cc)
